@@ -229,21 +229,35 @@ def wiring(pm, ctx):
         ctx.ok("C04-c", "DiscriminativeModel.fit: n_iter_ = max_iter")
     else:
         ctx.violation("C04-c", u.relpath, "DiscriminativeModel.fit", norm_src(ni[0]) if ni else "n_iter_", "n_iter_ does not record max_iter", line=f.lineno)
-    ifs = [s for s in cfg.nodes if isinstance(s, ast.If) and "self.solver" in norm_src(s.test)]
-    ok = False
-    if len(ifs) == 1 and isinstance(ifs[0].test, ast.Compare) and isinstance(ifs[0].test.ops[0], ast.Eq):
-        lit = ifs[0].test.comparators[0]
-        body_cls = [call_name(n) for n in ast.walk(ast.Module(body=ifs[0].body, type_ignores=[])) if isinstance(n, ast.Call)]
-        else_cls = [call_name(n) for n in ast.walk(ast.Module(body=ifs[0].orelse, type_ignores=[])) if isinstance(n, ast.Call)]
-        want = {"sgd": "SGDOptimizer", "adam": "AdamOptimizer"}
-        if isinstance(lit, ast.Constant) and lit.value in want:
-            other = [v for k, v in want.items() if k != lit.value][0]
-            ok = want[lit.value] in body_cls and other in else_cls and other not in body_cls and want[lit.value] not in else_cls
-    if ok:
+    # the class instantiated for self.optimiser_, case by case (if/else around the store, a conditional expression, a class picked first)
+    from ..match import value_cases
+    stores = [s_ for s_ in cfg.nodes if isinstance(s_, ast.Assign) and attr_chain(s_.targets[0]) == "self.optimiser_"]
+    want = {"sgd": "SGDOptimizer", "adam": "AdamOptimizer"}
+    probs, n_cases = [], 0
+    for st_ in stores:
+        for lits, val in value_cases(cfg, st_, st_.value):
+            if not isinstance(val, ast.Call):
+                probs.append(f"`{norm_src(val)[:50]}` is not a constructor call")
+                continue
+            for lits2, cls in value_cases(cfg, st_, val.func):
+                known = dict(lits | lits2)
+                sel = [(k, known[f"self.solver == '{k}'"]) for k in want if f"self.solver == '{k}'" in known]
+                name = norm_src(cls)
+                n_cases += 1
+                if not sel:
+                    probs.append(f"{name} is built whatever the solver")
+                    continue
+                k, pol = sel[0]
+                expected = want[k] if pol else [v for kk, v in want.items() if kk != k][0]
+                if name != expected:
+                    probs.append(f"solver {'==' if pol else '!='} '{k}' builds {name}, expected {expected}")
+    if stores and n_cases >= 2 and not probs:
         ctx.ok("C04-c", "DiscriminativeModel.fit: optimiser class selected by solver")
+    elif not stores:
+        ctx.unrecognised("C04-c", "DiscriminativeModel.fit: optimiser", "no store to self.optimiser_")
     else:
-        ctx.violation("C04-c", u.relpath, "DiscriminativeModel.fit", norm_src(ifs[0].test) if ifs else "solver", "the optimiser class does not follow solver",
-                      line=f.lineno)
+        ctx.violation("C04-c", u.relpath, "DiscriminativeModel.fit", norm_src(stores[0])[:120], "the optimiser class does not follow solver" + (": " + "; ".join(probs) if probs else ""),
+                      line=stores[0].lineno)
     # score = gemini(self.predict_proba(X), gemini.compute_affinity(X, y)) with one get_gemini() object
     f = u.func("DiscriminativeModel.score")
     src = [norm_src(s) for s in f.body if not (isinstance(s, ast.Expr) and isinstance(s.value, ast.Constant))]
